@@ -129,6 +129,8 @@ func obtainModifiedEarlyResponse(
 		Headers:    utils.DeepCopyHeaders(earlyResponseAction.Headers),
 		Body:       earlyResponseAction.Body,
 		Time:       onRequest.Time,
+
+		GatewayGenerated: true,
 	}
 
 	respRunResult, err := getOnResponseRunResult(
